@@ -311,7 +311,7 @@ PROPS = {
         "by unit vectors; pure function of (k, r, rate, data). Direct oracle: implementation bytes == closed form evaluated by rsmodel from the two "
         "published constants (no FFT, no tables) == reed-solomon-16 0.1.0 for 64-multiple sizes; constants == pinned literals.",
         "cases = encode op sequences x closed-form queries; distinct = distinct (configuration, data); non-trivial = every case (recovery bytes compared)",
-        pre_lean=gen_src_codec, technique=TECH_TRC, extra_targets=["srccodec"],
+        pre_lean=gen_src_codec, technique=TECH_TRC, extra_targets=["srccodec"], build_variants=True,
         design_ref="DESIGN.md §6 C02",
     ),
     "C03": P(
@@ -321,7 +321,7 @@ PROPS = {
         "either schedule. Direct oracle: engine vs engine (6 engines incl. Neon source on emulated intrinsics) on primitives (contract-valid "
         "outputs + frame) and end to end; model schedule vs implementation lane by lane.",
         "cases = primitive calls (fft/ifft/mul/eval_poly with generated parameters) on every engine + mixed-engine round trips; distinct by parameters",
-        pre_lean=gen_c03, technique=TECH_TRE, extra_targets=["srcengine"],
+        pre_lean=gen_c03, technique=TECH_TRE, extra_targets=["srcengine"], build_variants=True,
         design_ref="DESIGN.md §6 C03",
     ),
     "C04": P(
